@@ -245,7 +245,7 @@ def gen_case(rng):
         big = True
     elif kind == 'b':
         k = rng.choice([1, 1, 1, 2, 3, 5, 7]) * sign
-        t0 = day
+        t0 = day + (datetime.timedelta(hours=rng.choice([9, 10, 17, 23]), minutes=rng.choice([0, 30])) if rng.random() < 0.3 else datetime.timedelta(0))     # endpoints a whole number of days apart, at midnight or at one time of day
         t1 = t0 + DAY * rng.choice([0, 1, 2, 3, 6, 10, 31, 400]) * sign
         bump = '%db' % k if rng.random() > 0.15 else '%dB' % k
         big = abs(k) > 1
